@@ -64,6 +64,17 @@ def styled_chars(data, colors=True):
     return out
 
 
+class _Boom:
+    """A renderable that raises before it yields anything."""
+
+    def __init__(self, how):
+        self.how = how
+
+    def __rich_console__(self, console, options):
+        raise (InjectedInterrupt if self.how == "base" else InjectedFault)("C15-render")
+        yield ""  # pragma: no cover
+
+
 class C15:
     prop = PROP
     level = "exploration"
@@ -155,8 +166,13 @@ class C15:
             return ["out", "K%d_%dz %s" % (t, cnt[0], rng.choice(PIECES)), rng.choice(STYLES)]
         if r < 0.84:
             return ["bell"]
+        if r < 0.87:
+            # a print whose only renderable raises before it yields anything; the program catches
+            # the exception and carries on: the failed print contributes nothing, and whatever
+            # was printed before and after it in the same block must be untouched
+            return ["failprint", rng.choice(["exc", "base"])]
         if depth < 2:
-            if r < 0.92:
+            if r < 0.93:
                 return ["block", [self._gen_inner(rng, t, cnt, depth + 1) for _ in range(rng.randint(1, 2))]]
             # a capture nested in a capture or in a buffered block
             return ["capture", [self._gen_inner(rng, t, cnt, depth + 1) for _ in range(rng.randint(1, 2))], None]
@@ -179,6 +195,8 @@ class C15:
             return ["out", "K%d_%dz %s" % (t, cnt[0], rng.choice(PIECES)), rng.choice(STYLES)]
         if r < 0.68:
             return ["bell"]
+        if r < 0.69:
+            return ["failprint", rng.choice(["exc", "base"])]
         if r < 0.71:
             return ["clear", rng.random() < 0.5]
         if r < 0.75:
@@ -350,6 +368,15 @@ class Prog:
                     self._emit(con, x)
         elif k == "capture":
             self._capture(con, op, nested=True)
+        elif k == "failprint":
+            try:
+                con.print(_Boom(op[1]))
+            except FAULTS:
+                if con is self.console:
+                    self.probes["failed_prints"] = self.probes.get("failed_prints", 0) + 1
+            else:
+                if con is self.console:
+                    self._v("print", "fault-swallowed", "a renderable's exception did not come out of print()")
         else:
             raise ValueError(k)
 
